@@ -199,6 +199,8 @@ pub enum AppOp {
     StreamQ0 { size: u32, chunks: Vec<u32> },
     /// send that must fail in or before the encoder
     BadTopicTooLong { qos: u8 },
+    /// subscribe / unsubscribe whose filter is longer than 65535 bytes (fails in the encoder)
+    BadSubscribe { unsub: bool },
     Close,
     CloseReason(u8),
     CloseNoReason,
